@@ -92,6 +92,14 @@ def h_descriptions(env, N, prefix):
     if tok is not None:
         r2 = env.run(lambda: M.pa.pauli(env.np.array([codes[k] for k in range(N)] + [tok]) if env.symbolic else np.array([int(codes[k]) for k in range(N)] + [tok])))
         env.goal('token_array', b_and(b_not(r2.raised), r2.value is not None and r2.value.g.shape == (2 * N,) and b_and(arr_eq(r2.value.g, g_want), eq(r2.value.p, p_want))))
+    if tok is not None:
+        # integer arrays with the phase token leading (as a string prefix would be) or in the middle; lists and tuples of the same codes
+        for pos_name, pos in (('leading', 0), ('middle', N // 2)) if N > 1 else (('leading', 0),):
+            seq = [codes[k] for k in range(N)]
+            seq.insert(pos, tok)
+            for cname, conv in (('array', lambda x: env.np.array(x) if env.symbolic else np.array([int(v) for v in x])), ('tuple', tuple), ('list', list)):
+                rr = env.run(lambda: M.pa.pauli(conv(list(seq))))
+                env.goal('token_%s_%s' % (cname, pos_name), b_and(b_not(rr.raised), rr.value is not None and rr.value.g.shape == (2 * N,) and b_and(arr_eq(rr.value.g, g_want), eq(rr.value.p, p_want))))
     if prefix == '':
         r3 = env.run(lambda: M.pa.pauli({k: codes[k] for k in range(N)}, N))
         env.goal('dict', b_and(b_not(r3.raised), r3.value is not None and b_and(arr_eq(r3.value.g, g_want), eq(r3.value.p, 0))))
